@@ -308,12 +308,6 @@ package rpc
 
 // Conn methods used by the Transport wrappers: assumed contracts for now (ghost call counter gg_ncall, last connection
 // used gg_lastconn); their bodies are verified under Part 5 where present.
-//@ func (*Conn).NewStream
-//@   trusted
-//@   requires conn != nil
-//@   ghostset gg_ncall() = gg_ncall() + 1
-//@   ghostset gg_lastconn() = ref(conn)
-
 //@ func checkPersistConnErr
 //@   property C14
 //@   requires pc != nil && pc.Conn != nil && !isnil(pc.Conn.codec)
@@ -560,7 +554,7 @@ package rpc
 
 //@ func (*Conn).Close
 //@   property C20 C03
-//@   requires conn != nil && !isnil(conn.codec)
+//@   requires conn != nil
 //@   ghostset gb_closeCalled(conn) = true
 //@   ensures [C20] gg_codecClose() == old(gg_codecClose()) || gg_codecClose() == old(gg_codecClose()) + 1
 //@   ensures [C20] implies(gg_codecClose() == old(gg_codecClose()), err == ErrShutdown)
@@ -573,9 +567,9 @@ package rpc
 //@ field upgradePool: pool *upgrade inv upgradeZero
 //@ field upgradeBufferPool: pool []byte
 //@ field eventPool: pool *event
-//@ tokentable Conn.pending tok slot
-//@ field Call.Error: owned tok
-//@ field Call.Value: owned tok
+//@ tokentable Conn.pending tok slot [C02]
+//@ field Call.Error: owned tok [C02 C19]
+//@ field Call.Value: owned tok [C02 C19]
 
 //@ iface ClientCodec.WriteRequest
 //@   params codec, ctx, param
@@ -585,11 +579,12 @@ package rpc
 
 //@ func (*Call).done
 //@   property C02
-//@   requires call != nil && (gf_tok(call) == 2 || gb_internal(call))
+//@   requires call != nil
+//@   requires [C02] gf_tok(call) == 2 || gb_internal(call)
 //@   ghostset gf_tok(call) = ite(gb_internal(call), gf_tok(call), 0)
 //@   ghostset gg_dones() = gg_dones() + 1
 
-//@ pure sendable(conn *Conn, call *Call) bool = conn != nil && call != nil && call.upgrade != nil && !isnil(conn.codec) &&
+//@ pure sendable(conn *Conn, call *Call) bool = conn != nil && call != nil && call.upgrade != nil &&
 //@      legalUpgrade(call.upgrade) && implies(call.upgrade.Stream > 0, call.stream != nil) && (gf_tok(call) == 2 || gb_internal(call)) &&
 //@      gb_internal(call) == (call.upgrade.Stream == 1 || call.upgrade.Stream == 2) && implies(gb_internal(call), call.upgrade.NoResponse == 1)
 
@@ -598,15 +593,17 @@ package rpc
 //@   requires sendable(conn, call)
 //@   ensures [C02] gf_tok(call) != 2 || gb_internal(call)
 //@   ensures [C04] gg_wreq() <= old(gg_wreq()) + 1
+//@   ensures implies(old(call.upgrade.Stream) != 2, call.upgrade == old(call.upgrade) && call.stream == old(call.stream) && call.Done == old(call.Done))
 //@   ensures implies(!gb_internal(call), gg_putcall() == old(gg_putcall()))
 //@   atcall (*Call).done#1: [C03] call.Error == ErrShutdown && gg_wreq() == old(gg_wreq())
 //@   atcall ClientCodec.WriteRequest#1: [C01] arg0.Seq == seq && arg0.upgrade == call.upgrade && implies(call.upgrade.Stream == 2 || call.upgrade.Stream == 3, seq == call.stream.seq)
-//@   atcall (*Call).done#2: [C06] !has(conn.pending, seq) && call.Error != nil
+//@   atcall (*Call).done#2: [C06] (gb_internal(call) || !has(conn.pending, seq)) && call.Error != nil
 
 //@ func (*Conn).write
 //@   property C02 C05
 //@   requires sendable(conn, call)
 //@   ensures [C02] gf_tok(call) != 2 || gb_internal(call)
+//@   ensures implies(old(call.upgrade.Stream) != 2, call.upgrade == old(call.upgrade) && call.stream == old(call.stream) && call.Done == old(call.Done))
 //@   ensures implies(!gb_internal(call), gg_putcall() == old(gg_putcall()))
 //@ func (*Conn).write$1
 //@   property C02 C05
@@ -623,14 +620,14 @@ package rpc
 
 //@ func (*Conn).finishCall
 //@   property C01 C02 C11 C19
-//@   requires conn != nil && ctx != nil && call != nil && !isnil(conn.codec) && conn.bufferPool != nil
-//@   requires gf_tok(call) == 2 && !gb_internal(call)
+//@   requires conn != nil && ctx != nil && call != nil && conn.bufferPool != nil
+//@   requires [C02] gf_tok(call) == 2 && !gb_internal(call)
 //@   ensures [C02] gf_tok(call) == 0 && gg_dones() == old(gg_dones()) + 1
 //@   ensures [C01] gg_rbody() == old(gg_rbody()) + 1
 //@   ensures [C19] implies(len(old(ctx.value)) > 0 && cap(old(call.Buffer)) >= len(old(ctx.value)), arr(call.Value) == arr(old(call.Buffer)) && len(call.Value) == len(old(ctx.value)))
 //@   ensures [C01] implies(len(old(ctx.value)) > 0, len(call.Value) == len(old(ctx.value)))
 
-//@ pure readable(conn *Conn, ctx *Context) bool = conn != nil && ctx != nil && !isnil(conn.codec) && conn.bufferPool != nil &&
+//@ pure readable(conn *Conn, ctx *Context) bool = conn != nil && ctx != nil && conn.bufferPool != nil &&
 //@      implies(!conn.directIO, !isnil(conn.readStream))
 
 //@ func (*Conn).read
@@ -641,13 +638,13 @@ package rpc
 //@   requires conn != nil && ctx != nil && call != nil && conn.bufferPool != nil && gb_internal(call) && call.upgrade != nil
 //@ func (*Conn).read$2
 //@   property C02 C05
-//@   requires conn != nil && ctx != nil && call != nil && !isnil(conn.codec) && conn.bufferPool != nil
-//@   requires gf_tok(call) == 2 && !gb_internal(call)
+//@   requires conn != nil && ctx != nil && call != nil && conn.bufferPool != nil
+//@   requires [C02] gf_tok(call) == 2 && !gb_internal(call)
 //@   consumes gf_tok(call)
 //@ func (*Conn).read$3
 //@   property C02 C05
-//@   requires conn != nil && ctx != nil && call != nil && !isnil(conn.codec) && conn.bufferPool != nil
-//@   requires gf_tok(call) == 2 && !gb_internal(call)
+//@   requires conn != nil && ctx != nil && call != nil && conn.bufferPool != nil
+//@   requires [C02] gf_tok(call) == 2 && !gb_internal(call)
 //@   consumes gf_tok(call)
 
 //@ func (*Conn).recv$1
@@ -664,7 +661,7 @@ package rpc
 
 //@ func (*Conn).recv
 //@   property C02 C03 C20
-//@   requires conn != nil && !isnil(conn.codec) && conn.bufferPool != nil && implies(!conn.directIO, !isnil(conn.readStream))
+//@   requires conn != nil && conn.bufferPool != nil && implies(!conn.directIO, !isnil(conn.readStream))
 //@   requires !gb_swept(conn)
 //@   loop 1: invariant !gb_swept(conn)
 //@   loop 2: invariant conn.shutdown && gb_swept(conn) && conn.pending != nil && conn.streams != nil && sweptTok(conn) && forall(i, 0, rangeidx(), gf_tok(conn.pending[rangekey(i)]) != 1 || gb_internal(conn.pending[rangekey(i)])) && forall(i, rangeidx(), rangen(), unswept(conn.pending[rangekey(i)], rangekey(i)))
@@ -688,7 +685,8 @@ package rpc
 //@   requires done == nil || cap(done) > 0
 //@   ensures result != nil && implies(done != nil, result == done)
 
-//@ pure usable(conn *Conn) bool = conn != nil && !isnil(conn.codec)
+//@ field Conn.codec: nonnil
+//@ pure usable(conn *Conn) bool = conn != nil
 
 //@ func (*Conn).RoundTrip
 //@   property C02
@@ -748,3 +746,53 @@ package rpc
 //@   ghostat (*Conn).write#1: gf_tok(arg1) = 2
 //@   ghostat (*Conn).write#1: gb_internal(arg1) = false
 //@   ensures [C02] gg_putcall() == old(gg_putcall()) + 1
+
+//@ lockinv stream.mut
+//@   property C10
+//@   guards stream.events
+//@   invariant true
+
+//@ func (*stream).stop
+//@   property C10
+//@   requires w != nil
+//@   ensures [C10] w.closed == 1
+//@ func (*stream).trigger
+//@   property C09
+//@   requires w != nil && e != nil
+//@ field stream.closed: quiescent
+//@ func (*stream).WriteMessage
+//@   property C10
+//@   requires w != nil && w.write != nil
+//@   ensures [C10] implies(old(w.closed) > 0, err == ErrStreamShutdown)
+//@ func (*stream).Close
+//@   property C10
+//@   requires w != nil && w.close != nil
+//@   ensures [C10] w.closed == 1
+
+//@ func (*Conn).NewStream
+//@   property C02 C09 C10
+//@   ghostset gg_ncall() = gg_ncall() + 1
+//@   ghostset gg_lastconn() = ref(conn)
+//@   requires usable(conn)
+//@   ghostat (*Conn).write#1: gb_internal(arg1) = true
+//@   ensures [C10] implies(err != nil, isnil(result))
+//@ func (*Conn).NewStream$1
+//@   property C09
+//@   requires usable(conn) && call != nil && call.upgrade != nil && stream != nil && legalUpgrade(call.upgrade) && call.upgrade.Stream == 2 && call.upgrade.NoResponse == 1
+//@   ghostat (*Conn).write#1: gb_internal(arg1) = true
+//@ func (*Conn).NewStream$2
+//@   property C10
+//@   requires usable(conn) && stream != nil
+
+//@ extern buffer.AssignPool
+//@   ensures result != nil
+//@ iface socket.Socket.Dial
+//@   params s, address
+//@   ensures implies(result1 == nil, !isnil(result0))
+//@ iface socket.Conn.Messages
+//@   params c
+//@   ensures !isnil(result)
+
+//@ func NewConnWithCodec
+//@   property C20
+//@   ghostat (*Conn).recv#1: gb_swept(arg0) = false
